@@ -212,6 +212,14 @@ def export_ir(x, names):
         h = ['GetTupleElement', int(x.idx)]
     elif c == 'Coalesce':
         h = ['Coalesce']
+    elif c == 'NA':
+        h = ['NA', type_to_neutral(x._typ)]
+    elif c == 'IsNA':
+        h = ['IsNA']
+    elif c == 'ApplyAggOp':
+        if x.agg_op != 'Sum' or x.init_op_args or len(x.seq_op_args) != 1:
+            raise Outside(f'aggregator {x.agg_op}')
+        h = ['AggSum']
     else:
         raise Outside(f'IR node {c}')
     return [h, [export_ir(ch, names) for ch in cs]]
